@@ -1,7 +1,7 @@
 H = "Hypothesis 6.168 strategies sharded over 16 seeded workers"
 CHECKS = {
  "C01": {
-  "technique": "Hypothesis-generated planted periodic structures (+ in-place edit histories, priming searches, keyword / positional call forms, patterns carrying a cell); validity predicate per returned match against an independent brute-force image/Kabsch classifier",
+  "technique": "Hypothesis-generated planted periodic structures (+ in-place edit histories, priming searches, keyword / positional call forms, patterns carrying a cell, tolerances down to exactly 0); validity predicate per returned match against an independent brute-force image/Kabsch classifier",
   "text": "Thousands of generated structures per run (tight orthorhombic/tilted cells, all pattern and pose classes, boundary-straddling copies, decoys incl. mirror images, every hint form, seeded RNGs; a second part searches again after in-place edits of the same object). Every returned match is checked for length, range, distinctness, elements, being a non-clear-out rigid image under some choice of periodic images, returned positions = stored position + lattice vector, and the returned proper rotation fitting within atol component-wise. Random search: no absence proof.",
   "note": "grey zone between atol/16 (clear-in) and sqrt(3)*atol (clear-out) is not judged; numpy/scipy trusted",
  },
@@ -32,7 +32,7 @@ CHECKS = {
  },
  "C07": {
   "technique": "Hypothesis constructive-overlap generator (chains, zig-zags, stars; orthorhombic, sheared, tight and turned cells; look-alike priming calls; keyword / positional call forms) vs. a deletion-set model over the reference matcher's groups and feasible orderings",
-  "text": "Raise iff every combination of feasible orderings removes an atom twice (and the flag is off), never for empty replacements or overlaps only in retained atoms; when a structure is returned the removed atoms are exactly one deletion set per match and surviving bonds still join the same atoms.",
+  "text": "Raise iff every combination of feasible orderings removes an atom twice (and the flag is off), never for empty replacements or overlaps only in retained atoms; when a structure is returned the removed atoms are exactly one deletion set per match and surviving bonds still join the same atoms; structure and both patterns equal their snapshots after every call, refused or not.",
   "note": "exception message not checked; for fractions < 1 only the implications that hold for every random choice are asserted",
  },
  "C08": {
